@@ -25,6 +25,28 @@ Section Nodes.
     end.
 End Nodes.
 
+(* "cache entry lost": TTL expiry, eviction or restart of a cache tier drops the key's copy from a node's local cache and from the
+   shared cache (MDrop i k), or from every local cache and the shared cache (MDropAll k).  The persistent tier is never touched. *)
+Inductive mstep := MOp (i : nat) (o : op) | MDrop (i : nat) (k : kbytes) | MDropAll (k : kbytes).
+
+Definition mdrop (m : mworld) (i : option nat) (k : kbytes) : mworld :=
+  {| m_locals := map (fun js => match i with
+                                | Some i0 => if Nat.eqb (fst js) i0 then supd (snd js) k None else snd js
+                                | None => supd (snd js) k None end)
+                     (combine (seq 0 (length (m_locals m))) (m_locals m));
+     m_shared := supd (m_shared m) k None; m_pers := m_pers m |}.
+
+Fixpoint mrun (T : tables) (c : cfg) (m : mworld) (steps : list mstep) : mworld * list (option res) :=
+  match steps with
+  | [] => (m, [])
+  | MOp i o :: r => let '(m1, x) := mexec T c m i o in let '(m2, xs) := mrun T c m1 r in (m2, x :: xs)
+  | MDrop i k :: r => let '(m2, xs) := mrun T c (mdrop m (Some i) k) r in (m2, Some ROk :: xs)
+  | MDropAll k :: r => let '(m2, xs) := mrun T c (mdrop m None k) r in (m2, Some ROk :: xs)
+  end.
+
+(* the single-node view of the same event: the key's copies in the local and the shared cache are gone *)
+Definition drop_cache (w : world) (k : kbytes) : world := tset (tset w TLocal k None) TShared k None.
+
 (* a key is visible across nodes iff its class has a common tier: the persistent tier, or the shared cache *)
 Definition cross_visible (T : tables) (c : cfg) (k : kbytes) : bool :=
   two_tier T c k || tier_eqb (cache_tier_for_key T c k) TShared.
